@@ -177,7 +177,7 @@ def topup_problems(text, mol, ignore):
                 # allowed only if the position holds a different residue name here
                 if not any(names.get((ch, num)) and rn not in names[(ch, num)] for ch, num, rn in occ):
                     probs.append("conformation %s lacks %r although the position is free" % (c, lab))
-    req = "topup run " + "/".join(";".join("%s|%s|%d|%s" % (hx(a.residue_label), hx(a.chain_id), a.res_num, hx(a.res_name)) for a in orig[c]) or "-" for c in mol.conformation_names)
+    req = "topup run " + "/".join(";".join("%s|%s|%d|%s|%s" % (hx(a.residue_label), hx(a.chain_id), a.res_num, hx(a.icode), hx(a.res_name)) for a in orig[c]) or "-" for c in mol.conformation_names)
     real = "/".join(";".join("%s|%s" % (hx(a.residue_label), hx(a.res_name)) for a in mol.conformations[c].atoms if a.element != 'H' or True) for c in mol.conformation_names)
     return probs, req, real
 
@@ -303,7 +303,7 @@ def topup_corr(ctx, ignore):
         before = {n: list(confs[n].atoms) for n in names}
         mol.conformations, mol.conformation_names = confs, names
         mol.top_up_conformations()
-        reqs.append("topup run " + "/".join(";".join("%s|%s|%d|%s" % (hx(a.residue_label), hx(a.chain_id), a.res_num, hx(a.res_name)) for a in before[n]) or "-" for n in names))
+        reqs.append("topup run " + "/".join(";".join("%s|%s|%d|%s|%s" % (hx(a.residue_label), hx(a.chain_id), a.res_num, hx(a.icode), hx(a.res_name)) for a in before[n]) or "-" for n in names))
         reals.append("/".join(";".join("%s|%s" % (hx(a.residue_label), hx(a.res_name)) for a in confs[n].atoms) for n in names))
         ctx.case(key=("topup", name))
     outs = common.driver_batch(reqs) if reqs else []
